@@ -6,6 +6,7 @@ import (
 	"fmt"
 	"reflect"
 	"runtime"
+	"strings"
 	"sync"
 
 	structform "github.com/elastic/go-structform"
@@ -534,6 +535,17 @@ func runAlias(c *Case, tr *Trace) {
 		res["err"] = err.Error()
 	}
 	snap := describe(reflect.ValueOf(t1).Elem())
+	if twice, _ := c.Sub["twice"].(bool); twice && res["err"] == "" {
+		// the same document once more into the SAME target (every member name is already present there),
+		// byte by byte: the target must end up as it was
+		all := make([]int, 0, len(doc))
+		for i := 1; i < len(doc); i++ {
+			all = append(all, i)
+		}
+		if err := feed(doc, all, t1); err != nil {
+			res["err"] = err.Error()
+		}
+	}
 	t2 := newTarget()
 	if err := feed(follow, []int{len(follow) / 2}, t2); err != nil {
 		res["err2"] = err.Error()
@@ -595,6 +607,19 @@ type concInner struct {
 	Y float64 `struct:"y"`
 }
 type concIn2 struct{ Z []int }
+
+// interleaveVisitor calls onRef with every text it is handed by reference, before recording it.
+type interleaveVisitor struct {
+	RefRecorder
+	onRef func([]byte)
+}
+
+func (v *interleaveVisitor) OnStringRef(b []byte) error {
+	v.onRef(b)
+	return v.RefRecorder.OnStringRef(b)
+}
+func (v *interleaveVisitor) OnKeyRef(b []byte) error { v.onRef(b); return v.RefRecorder.OnKeyRef(b) }
+
 type concSmall struct {
 	A string `struct:"a"`
 }
@@ -798,6 +823,49 @@ func runConc(c *Case, tr *Trace) {
 			}
 			var again concSmall
 			if u, err := gotype.NewUnfolder(&again); err != nil || gotype.Fold(shared[0], u) != nil || again.A != "a" {
+				iso++
+			}
+		}
+		// ... and two parsers interleaved in ONE goroutine: while parser A is inside a by-reference callback, an
+		// independent parser B assembles texts of the same size from its own chunks; A's bytes must stay A's
+		for _, f := range fmts {
+			api := formats[f]
+			mk := func(ch byte) []byte {
+				t := strings.Repeat(string(ch), 100)
+				sk := &sink{}
+				enc := api.newVisitor(sk, Opts{})
+				enc.OnObjectStart(1, structform.AnyType)
+				enc.OnKey(t)
+				enc.OnString(t)
+				enc.OnObjectFinished()
+				return sk.all
+			}
+			docA, docB := mk('a'), mk('b')
+			chunks := func(p parserI, d []byte) {
+				for i := 0; i < len(d); i += 50 {
+					j := i + 50
+					if j > len(d) {
+						j = len(d)
+					}
+					if _, err := p.Write(exact(d[i:j])); err != nil {
+						return
+					}
+				}
+				if fin, has := p.(interface{ VerifFinalize() error }); has {
+					fin.VerifFinalize()
+				}
+			}
+			changed := false
+			vA := &interleaveVisitor{}
+			vA.onRef = func(b []byte) {
+				before := string(b)
+				chunks(api.newParser(&RefRecorder{}), docB)
+				if string(b) != before {
+					changed = true
+				}
+			}
+			chunks(api.newParser(vA), docA)
+			if changed {
 				iso++
 			}
 		}
